@@ -1734,6 +1734,9 @@ class FileSet:
             try:
                 with open(filename) as file:
                     json_info_cache = json.load(file)
+                    if not isinstance(json_info_cache, list):
+                        raise ValueError(
+                            "not a list of file information")
                     # Create FileInfo objects from json dictionaries:
                     info_cache = {
                         json_dict["path"]: FileInfo.from_json_dict(json_dict)
